@@ -379,9 +379,10 @@ pub fn run(ctx: &mut Ctx) {
         strategy,
         check,
     );
-    // quick: 2 x 1.3e9 entries (thresholds up to 5.5 sigma have power); thorough: 2 x 2e10 (6 sigma)
-    let calls: u64 = if t == crate::engine::Tier::Quick { 20_000 } else { 300_000 };
+    // quick: 2 x 1.3e9 entries (thresholds up to 5.5 sigma have power); thorough: 2 x 3.9e10 (6 sigma: 78 expected)
+    let calls: u64 = if t == crate::engine::Tier::Quick { 20_000 } else { 600_000 };
     ctx.set_case_timeout(1800.0);
+    ctx.max_shrink_iters = 0; // one case costs up to a minute: a failing case is reported as generated
     ctx.section(
         "tails",
         "counts of entries beyond 4, 4.5, 5, 5.5 and 6 sigma in billions of seeded draws vs the normal tail probabilities (|z| <= 6.5 where the expected count is >= 12)",
@@ -390,6 +391,7 @@ pub fn run(ctx: &mut Ctx) {
         move || tail_strategy(calls),
         tail,
     );
+    ctx.max_shrink_iters = 3000;
     ctx.set_case_timeout(60.0);
     ctx.section(
         "distribution",
